@@ -15,6 +15,7 @@ import (
 	"path/filepath"
 	"sort"
 	"strings"
+	"sync"
 	"sync/atomic"
 	"syscall"
 	"testing"
@@ -369,6 +370,32 @@ func TestVerifC13(t *testing.T) {
 				e.store(all[k])
 			}
 			ok := true
+			if order == 1 && ndays >= 2 && i%2 == 0 {
+				// the days are merged by overlapping requests (the task queue runs the
+				// handlers side by side): each day's object is judged against its own day
+				for round := 0; round < 2 && ok; round++ {
+					sts := make([]int, ndays)
+					var wg sync.WaitGroup
+					for d := 0; d < ndays; d++ {
+						wg.Add(1)
+						go func(d int) {
+							defer wg.Done()
+							sts[d], _ = e.get("/merge/?date=" + dayStr(day0+int64(d)))
+						}(d)
+					}
+					wg.Wait()
+					res.Hit("concurrent-merge-requests")
+					for d := 0; d < ndays && ok; d++ {
+						ds := dayStr(day0 + int64(d))
+						if sts[d] != 200 {
+							res.Violate("merge-failed:concurrent", fmt.Sprintf("merge of %s answered %d while other days were being merged", ds, sts[d]), rp)
+							ok = false
+						} else {
+							ok = judgeMerged(res, e, ds, byDay[ds], rp)
+						}
+					}
+				}
+			}
 			for d := 0; d < ndays && ok; d++ {
 				ds := dayStr(day0 + int64(d))
 				if len(byDay[ds]) >= 200 && order == 0 {
@@ -588,7 +615,7 @@ func TestVerifC13(t *testing.T) {
 			res.Sample(map[string]any{"case": i, "days": ndays, "reports": len(all), "first_day": dayStr(day0)})
 		}
 	}
-	res.Require("merge-commit-fails", "chart-commit-fails", "stray-object-in-upload-bucket", "merge-under-descriptor-limit", "concurrent-chart-requests", "re-merge-after-replacement", "merged-line>64KiB", "duplicate-X", "missing-day", "sub-range", "semver-equal-versions")
+	res.Require("concurrent-merge-requests", "merge-commit-fails", "chart-commit-fails", "stray-object-in-upload-bucket", "merge-under-descriptor-limit", "concurrent-chart-requests", "re-merge-after-replacement", "merged-line>64KiB", "duplicate-X", "missing-day", "sub-range", "semver-equal-versions")
 	if err := res.Write(); err != nil {
 		t.Fatal(err)
 	}
@@ -627,6 +654,11 @@ func mergeAndJudge(res *verifrt.Result, e *wenv, ds string, stored []*wreport, r
 		res.Violate("merge-failed", fmt.Sprintf("merge of %s answered %d: %.200s", ds, st, body), rp)
 		return false
 	}
+	return judgeMerged(res, e, ds, stored, rp)
+}
+
+// judgeMerged: the merged object of the day holds one line per stored report.
+func judgeMerged(res *verifrt.Result, e *wenv, ds string, stored []*wreport, rp map[string]any) bool {
 	mb, err := os.ReadFile(filepath.Join(e.root, "merged", ds+".json"))
 	if err != nil {
 		res.Violate("merge-no-object", err.Error(), rp)
